@@ -38,6 +38,8 @@ Z_MODELS: dict[str, dict[str, Any]] = {
     "VAbAc": {"kinds": [{}], "layouts": [{"ab": a, "ac": c} for a in (None, "one") for c in (None, "one")]},
     "VPair": {"kinds": [{}], "layouts": [{"pair": 2}]},
     "VFlags": {"kinds": [{"h": "int", "k": "int"}], "layouts": [{}]},
+    # comparable properties that are no constructor arguments (init=False) are content all the same
+    "VSerial": {"kinds": [{"name": "str", "serial": "int", "size": "int"}], "layouts": [{}]},
 }
 TYPE_CASES = [("VLeaf", "v", ["int", "bool", "str", "none"]), ("VRich", "n", ["none", "int", "str"])]
 
@@ -675,6 +677,28 @@ def _relatives():
     return _REL
 
 
+def noninit_harness(e):
+    """Comparable init=False properties (a counter, a value computed from an argument) are content."""
+    from models.zoo import VMany, VSerial
+
+    reset_all()
+    na, nb = e.pick(["t", "tt", "ttt"], "left_name"), e.pick(["t", "tt", "ttt"], "right_name")
+    below = e.flag("below_a_parent")
+    x, y = VSerial(name=na), VSerial(name=nb)
+    same = na == nb and x.serial == y.serial and x.size == y.size  # never: the serials differ
+    px, py = (VMany(items=(x,)), VMany(items=(y,))) if below else (x, y)
+    got = (px.content_id == py.content_id, px.is_equal(py), py.is_equal(px))
+    scenario = {"kind": "non-init-comparable-properties", "left": {"name": na, "serial": x.serial, "size": x.size}, "right": {"name": nb, "serial": y.serial, "size": y.size}, "below_a_parent": bool(below), "content_id_equal": got[0], "is_equal": got[1]}
+    if got != (same, same, same):
+        e.fail("non-init-comparable-property:different-content-same-id", scenario=scenario)
+    # and equal values give equal content: a copy made by dataclasses.replace keeps both non-init values? no --
+    # init=False fields are recomputed, so only self-comparison is asserted here
+    if not x.is_equal(x) or x.content_id != x.content_id:
+        e.fail("is_equal-not-reflexive", scenario=scenario)
+    e.distinct((na, nb, bool(below)))
+    return scenario
+
+
 def relatives_harness(e):
     from models.zoo import VLeaf
 
@@ -754,6 +778,7 @@ def spec(tier: str, seed: int) -> Spec:
     fams.append(Family("special-pairs", special_harness, variables="selector: pair from a pool of value-level cases"))
     fams.append(Family("loaded-nodes", loaded_harness, variables="selectors: payload case (edited property / value normalised by the format), format"))
     fams.append(Family("field-order", field_order_harness, variables="selector: declaration order of the class"))
+    fams.append(Family("non-init-comparable-properties", noninit_harness, variables="selectors: names (the computed property follows), position"))
     fams.append(Family("class-relatives", relatives_harness, variables="selectors: two classes from a family related by inheritance (three of them share one __name__), child, construction order"))
     fams.append(Family("multiple-inheritance", mi_harness, variables="selectors: class used first, class, two value variants"))
     return Spec(
